@@ -442,6 +442,8 @@ def run_case(case, ctx):
     if kind == "enum":
         ops = [[0] + op for op in case["ops"]]
         for p in range(1, len(ops) + 1):
+            if p > 1:
+                ctx.evaluations += 1   # each reopen position is its own execution of the history
             ok, outcomes, snaps, nonempty = run_history(ctx, qk, [case["key"]], ops, {p}, "new")
             if case.get("len5"):
                 ctx.count("len5_runs")
